@@ -343,6 +343,7 @@ def run_property(P, tier, seed, scratch, args, t0):
 
     # ---- frame obligations ------------------------------------------------------------------
     frame_res = []
+    os.environ["VERIF_TIER_EFFECTIVE"] = tier
     if not (args.only or args.unit):
         for fo in frame.obligations_for(P):
             try:
@@ -353,8 +354,13 @@ def run_property(P, tier, seed, scratch, args, t0):
             frame_res.append(r)
             log("   [frame] %-44s %s (%d obligations, %d failed)" % (r["name"], "ok" if not r["failed"] else "FAILED",
                                                                     r["obligations"], len(r["failed"])))
-            ob_proof += r["obligations"]
-            ob_proof_ok += r["obligations"] - len(r["failed"])
+            if r.get("strength") == "bounded":
+                # a bounded stand-in registered as a frame-style obligation (gcnative): never counted as proof
+                ob_bounded += r["obligations"]
+                ob_bounded_ok += r["obligations"] - r.get("obligations_failed_count", len(r["failed"]))
+            else:
+                ob_proof += r["obligations"]
+                ob_proof_ok += r["obligations"] - len(r["failed"])
             for f in r["failed"]:
                 kf = match_known_frame(f, known_active, P)
                 if kf:
@@ -384,6 +390,10 @@ def run_property(P, tier, seed, scratch, args, t0):
             rr = replay_mod.replay(v, REPO, CACHE)
         except Exception as e:  # replay must never turn a violation into a crash
             rr = {"verdict": "replay-error", "error": repr(e)}
+        nw = (v.get("detail") or {}).get("native_witness")
+        if nw and rr.get("verdict") != "reproduced":
+            # the failing heap WAS an execution of the real collector (extracted verbatim, compiled natively)
+            rr = {"verdict": "reproduced", "how": "native execution of the extracted gc/mod.rs on the enumerated heap", "witness": nw, "cli_probe": rr}
         rec["replay"] = rr
         verdict = rr.get("verdict")
         json.dump(rec, open(rp, "w"), indent=1)
@@ -391,7 +401,7 @@ def run_property(P, tier, seed, scratch, args, t0):
         if verdict != "reproduced":
             line += " obligation=%s no-failing-input-found" % json.dumps(v["obligation"])
         else:
-            line += " obligation=%s reproduced-on-real-binary" % json.dumps(v["obligation"])
+            line += " obligation=%s %s" % (json.dumps(v["obligation"]), "reproduced-on-real-code-natively" if rr.get("how") else "reproduced-on-real-binary")
         vio_lines.append(line)
 
     seen = set()
@@ -438,6 +448,8 @@ def run_property(P, tier, seed, scratch, args, t0):
             n_code_units += k
     bounded_list = [{"harness": p["harness"], "unit": p["unit"], "bound": p["bound"], "clause": p["clause"], "outcome": p["outcome"]}
                     for p in per_harness if p["strength"] != "proof" and p["variant"] == "full"]
+    bounded_list += [{"harness": r["name"], "unit": "native enumeration", "bound": r.get("bound", ""), "clause": "see frame entry", "outcome": "pass" if not r["failed"] else "fail"}
+                     for r in frame_res if r.get("strength") == "bounded"]
     cov = {
         "obligations": ob_proof, "discharged": ob_proof_ok,
         "checker_cmd": "./check %s --tier %s  (kani <unit>.rs --harness <h> per harness; verus <lemma>.rs; vx/frame.py)" % (P, tier),
@@ -457,7 +469,7 @@ def run_property(P, tier, seed, scratch, args, t0):
         "fragment_kinds": code_kinds,
         "code_units_note": "code_units_under_contract = functions + methods + match arms + statement slices extracted individually, plus the number of `fn` items inside each whole-file fragment (incl. test fns of a dropped tests module if the drop was by cfg only); type items are not counted. It is the size of the extracted text, not the number of functions a harness actually calls.",
         "harnesses": per_harness,
-        "lemmas": lemma_res, "frame": [{k: v for k, v in r.items() if k != "samples"} for r in frame_res],
+        "lemmas": lemma_res, "frame": [{k: v for k, v in r.items() if k not in ("samples", "fragments")} for r in frame_res],
         "backends": {"kani": "0.68.0 (cbmc 6.11.0, cadical)", "verus": "0.2026.09.13 (z3)", "frame": "vx/frame.py"},
         "solver_time_s": round(sum((p.get("solver_s") or 0) for p in per_harness) + sum(l.get("wall_s", 0) for l in lemma_res), 2),
         "undecided": [{"what": w, "reason": r} for w, r in undecided],
